@@ -353,6 +353,25 @@ def bad_body(case):
         idx = np.atleast_1d(np.asarray(err))
         check(idx.dtype.kind in 'iu' and bool(np.all((idx >= 0) & (idx < max(n, 1)))), 'error-index-out-of-range:' + kind, lambda: dict(err=repr(err), n=n))
         check(np.array_equal(np.asarray(out), keep, equal_nan=True), 'input-matrix-not-returned:' + kind)
+        if kind == 'indefinite':
+            # round 11: "the index where the problem was detected" - fit() hands it to maskpoints(), so it decides which breakpoints are
+            # dropped.  The factorisation proceeds column by column: the problem is detected at the first column j whose leading
+            # (j+1) x (j+1) block is no longer positive definite.  Judged only when both sides of that statement hold with a margin.
+            scale = float(np.abs(A).max())
+            first = None
+            for j in range(n):
+                ev = np.linalg.eigvalsh(A[:j + 1, :j + 1])
+                if ev[0] < -1e-6 * scale:
+                    first = j
+                    break
+                if ev[0] <= 1e-6 * scale:
+                    break          # borderline block: not judged
+            if first is not None:
+                note_label('failure-column-judged')
+                if first < bw - 1:
+                    note_label('failure-inside-the-first-band-width')
+                check(idx.tolist() == [first], 'error-index-is-not-the-column-where-the-factorisation-fails',
+                      lambda: dict(reported=idx.tolist(), first_non_positive_definite_leading_block=first, n=n, bw=bw))
     if pos > 0:
         note_label('failure-not-at-index-0')
 
